@@ -148,6 +148,12 @@ func (r *replaceArraystrategy) evaluate(m *MethodEvaluator) error {
 		return err
 	}
 
+	if len(evaluatedArgs) == 0 {
+		m.parser.SetLastEvaluatedT(m.evaluatedObjectT)
+
+		return nil
+	}
+
 	newArrayT := evaluatedArgs[0]
 	newArrayT.SetBeforeEvaluateCode(m.evaluatedObjectT.GetBeforeEvaluateCode())
 
@@ -249,10 +255,13 @@ func (a *addArrayStrategy) evaluate(m *MethodEvaluator) error {
 	}
 
 	arrayT := m.evaluatedObjectT
-	argT := evaluatedArgs[0]
 
-	for _, variant := range argT.GetVariants() {
-		arrayT.AppendArrayVariant(variant)
+	if len(evaluatedArgs) > 0 {
+		argT := evaluatedArgs[0]
+
+		for _, variant := range argT.GetVariants() {
+			arrayT.AppendArrayVariant(variant)
+		}
 	}
 
 	m.parser.SetLastEvaluatedT(arrayT)
